@@ -30,7 +30,9 @@ Definition shinit : shst := mkSh [] [] 0 0.
 
 Inductive shlabel :=
 | SCreate (k : Z)             (* CreateSink with properties whose key is k; the result is kept by a new holder *)
-| SDrop (r : nat).            (* holder r drops its reference (and the garbage collector runs) *)
+| SDrop (r : nat)             (* holder r drops its reference (and the garbage collector runs) *)
+| SEnv (n : nat) (state : Z). (* environment: underlying sink n now reports this ChannelState (fault, close, open...);
+                                 CreateSink does not look at it: a held key keeps yielding the same sink *)
 
 Inductive shobs :=
 | SUnder (n : nat)                   (* next_provider.CreateSink called: underlying sink n created *)
@@ -58,6 +60,7 @@ Definition shstep (s : shst) (l : shlabel) : shst * list shobs :=
   | SDrop r =>
       let rs := filter (fun x => negb (Nat.eqb (r_id x) r)) (refs s) in
       (mkSh (filter (fun e => referenced rs (snd e)) (cache s)) rs (nsink s) (nref s), [])
+  | SEnv _ _ => (s, [])
   end.
 
 Fixpoint shrun (s : shst) (ls : list shlabel) : shst * list (list shobs) :=
